@@ -28,7 +28,7 @@ class Geo:
 
     def origin(self, rng):
         if self.family == "dyadic":
-            return rng.randint(-40, 40) * 2.0 ** -rng.choice([0, 0, 1, 2, 3])
+            return rng.randint(-40, 40) * 2.0 ** -rng.choice([0, 0, 0, 1, 2, 3])
         return rng.randint(-400, 400) * rng.choice([1e-9, 0.5e-9, 0.1e-9, 0.37e-9])
 
     def vec(self, rng, cell):
@@ -83,6 +83,8 @@ def draw_region_spec(rng, geo, ndim, n=None, allow_mixed_units=True):
             p1[i], p2[i] = p2[i], p1[i]
     dims, units = draw_dims_units(rng, ndim, allow_mixed_units)
     spec = {"p1": p1, "p2": p2, "dims": dims, "units": units}
+    if all(float(x).is_integer() for x in p1 + p2) and rng.random() < 0.5:
+        spec["intcorners"] = True  # integer-typed corner arrays (the library keeps the dtype it is given)
     return spec, n
 
 
@@ -129,6 +131,8 @@ def draw_mesh_spec(rng, geo, ndim, max_cells=300, max_subs=3, allow_mixed_units=
     spec["bc"] = draw_bc(rng, spec["dims"], ndim)
     k = rng.choice([0, 0, 1, 2, 3][: max_subs + 2]) if max_subs else 0
     spec["subs"] = draw_subs(rng, spec, n, k)
+    if spec.get("intcorners"):
+        spec["intsubs"] = all(float(x).is_integer() for _, a, b in spec["subs"] for x in a + b) and rng.random() < 0.7
     return spec
 
 
@@ -278,6 +282,7 @@ def draw_reject(rng, h_slot, kind, reg, methods, inplace, field_unmapped_axes=No
     """One malformed / degenerate call (Appendix A.1, column 'rejected variants')."""
     nd = reg.ndim
     dims = list(reg.dims)
+    scale = float(max(reg.edges))
     method = rng.choice(methods)
     ok_v = [1.0] * nd
     cat = []
@@ -290,6 +295,7 @@ def draw_reject(rng, h_slot, kind, reg, methods, inplace, field_unmapped_axes=No
             ("str element", [["a"] + ok_v[1:]], {}),
             ("complex element", [[{"complex": [1.0, 1.0]}] + ok_v[1:]], {}),
             ("set", [{"set": [1.0]}], {}),
+            ("degenerate by rounding (far translation)", [[1e22 * scale] + [0.0] * (nd - 1)], {}),
         ]
     elif method == "scale":
         zero_axis = list(ok_v)
@@ -307,6 +313,7 @@ def draw_reject(rng, h_slot, kind, reg, methods, inplace, field_unmapped_axes=No
             ("reference wrong length", [2.0], {"reference_point": [0.0] * (nd + 1)}),
             ("reference str", [2.0], {"reference_point": "abc"}),
             ("reference dict", [2.0], {"reference_point": {"dict": {"a": 1.0}}}),
+            ("degenerate by rounding (far reference)", [2.0], {"reference_point": [1e22 * scale] * nd}),
         ]
     elif method == "rotate90":
         if nd < 2:
@@ -321,6 +328,7 @@ def draw_reject(rng, h_slot, kind, reg, methods, inplace, field_unmapped_axes=No
             ("reference wrong length", [a, b], {"reference_point": [0.0] * (nd + 1)}),
             ("reference str", [a, b], {"reference_point": "abc"}),
             ("reference number", [a, b], {"reference_point": 1.0}),
+            ("degenerate by rounding (far reference)", [a, b], {"reference_point": [1e22 * scale] * nd}),
         ]
         if field_unmapped_axes:
             a, b = field_unmapped_axes
